@@ -177,6 +177,28 @@ def mutate(rng, valid):
     return 'valid', valid
 
 
+def structurally_incomplete(frame):
+    """Independent of the library: a frame whose declared structure is not all there cannot be
+    'fully decoded', whatever the library's decoder thinks - wrong root, no header, no batch count, or fewer
+    batch items than the header's batch count announces.  Returns the rule or None."""
+    try:
+        t = T.decode(frame, strict=False)
+    except T.TTLVError:
+        return None          # other malformations are judged by the library's own decoder
+    if t[0] != T.T_REQUEST_MESSAGE or t[1] != T.STRUCTURE:
+        return 'root'
+    hdr = T.kid(t, T.T_REQUEST_HEADER)
+    if hdr is None or hdr[1] != T.STRUCTURE:
+        return 'no-header'
+    bc = T.val(hdr, T.T_BATCH_COUNT)
+    if bc is None or isinstance(bc, bool) or not isinstance(bc, int):
+        return 'no-batch-count'
+    items = [k for k in t[2] if k[0] == T.T_BATCH_ITEM]
+    if bc > len(items):
+        return 'batch-count>items'
+    return None
+
+
 def decodable(frame):
     try:
         rig.decode_request(frame)
@@ -255,6 +277,15 @@ def run_case(ctx, case):
                 frames.append(probe)
                 kinds.append('probe')
                 dec = [decodable(f) for f in frames]
+                incomplete = [structurally_incomplete(f) for f in frames]
+                for i, (dc, inc) in enumerate(zip(dec, incomplete)):
+                    if inc:
+                        ctx.count('structurally_incomplete_frames')
+                        if dc:
+                            ctx.violation('decoder-accepts-incomplete|%s' % inc,
+                                          'the request decoder accepts a %s frame that is structurally incomplete (%s)'
+                                          % (kinds[i], inc), {'frame': frames[i].hex()[:600]})
+                            dec[i] = False     # it must be treated as undecodable below
                 mutating = any(dec[:-1])       # a decodable "bad" frame may execute and change the store
                 results = {}
                 t0 = clock.now
